@@ -221,7 +221,13 @@ func (p *TxProcessor) checkSignersWeight(sender common.Address, tx *types.Transa
 		signersMap := accSigners.ToSignerMap()
 		// 计算签名者权重总和
 		var totalWeight int64 = 0
+		counted := make(map[common.Address]struct{}, len(signers))
 		for _, addr := range signers {
+			// a signer's weight counts once, however many signatures (or re-encodings of one) it supplied
+			if _, dup := counted[addr]; dup {
+				continue
+			}
+			counted[addr] = struct{}{}
 			if w, ok := signersMap[addr]; ok {
 				totalWeight = totalWeight + int64(w)
 			}
